@@ -177,6 +177,8 @@ class Program:
             from . import alpha
             self.alpha_renamed = getattr(self, 'alpha_renamed', 0) + alpha.reshape_calls(self)
             self.alpha_renamed += alpha.reextract_all(self)
+            from . import objnorm
+            self.objects_dissolved = objnorm.apply(self)
 
     # -- loading ---------------------------------------------------------
     def _load_tree(self, sub: str, pkg: str | None = 'AEIC'):
